@@ -72,6 +72,8 @@ def script_of(run):
 def run_core(pid, tier, seed, plan):
     t0 = time.time()
     gitai = engine.build_gitai()
+    if plan.get("prebuild"):
+        plan["prebuild"]()
     wd = os.path.join(engine.WORK, "check", pid, tier)
     shutil.rmtree(wd, ignore_errors=True)
     os.makedirs(wd, exist_ok=True)
@@ -90,11 +92,15 @@ def run_core(pid, tier, seed, plan):
     rnd = random.Random(seed)
     for camp in plan[tier]:
         consts = camp["consts"]
+        # a campaign may use another specification module than the plan's default (e.g. C11: the interleaving
+        # module for overlapping processes, the core module for several agents reporting one after another)
+        cplan = dict(plan)
+        cplan.update(camp.get("plan_override", {}))
         cwd = os.path.join(wd, camp["name"])
         gres, beh = tlc.gen_behaviours(consts, os.path.join(cwd, "gen"), camp.get("invariants", []),
                                        workers=camp.get("workers", 8), timeout=camp.get("timeout", 900),
                                        simulate=camp.get("simulate"), coverage=camp.get("coverage", False),
-                                       module=plan.get("module", "MC_Core.tla"), const_keys=plan.get("const_keys"))
+                                       module=cplan.get("module", "MC_Core.tla"), const_keys=cplan.get("const_keys"))
         if gres["violated"]:
             print("TOOL-ERROR: the model itself violates %s in campaign %s (see %s)" % (
                 gres["violated"], camp["name"], gres["log"]))
@@ -107,9 +113,9 @@ def run_core(pid, tier, seed, plan):
             total["transitions"] += gres["generated"]
         total["behaviours_generated"] += len(beh)
         sel, ntags = engine.select(beh, camp["budget"], seed, per_tag=camp.get("per_tag", 2),
-                                   tagger=plan.get("tagger"))
+                                   tagger=cplan.get("tagger"))
         total["tag_vectors"] += ntags
-        total["tag_vectors_replayed"] += len({(plan.get("tagger") or engine.tags_of)(b) for b in sel})
+        total["tag_vectors_replayed"] += len({(cplan.get("tagger") or engine.tags_of)(b) for b in sel})
         variants = camp.get("variants", [("plain", "plain")])
         jobs = []
         for i, b in enumerate(sel):
@@ -133,7 +139,7 @@ def run_core(pid, tier, seed, plan):
                         cfg["twin"] = tw
                     jobs.append((cfg, b, "%s-%s-%d-%s-%s%s" % (pid, camp["name"], i, render, filefam,
                                                               "-t%d" % twins.index(tw) if tw is not None else "")))
-        results = engine.replay_many(gitai, jobs, executor=plan.get("executor"))
+        results = engine.replay_many(gitai, jobs, executor=cplan.get("executor"))
         errs = [(i, e) for i, (_, _, e) in enumerate(results) if e]
         total["harness_errors"] += len(errs)
         if len(errs) > max(2, len(jobs) // 50):
@@ -141,8 +147,9 @@ def run_core(pid, tier, seed, plan):
             return 2
         total["replayed"] += len(jobs) - len(errs)
         total["divergent"] = total.get("divergent", 0) + sum(1 for _, info, e in results if not e and info.get("divergent"))
-        runs, tres = engine.validate(consts, results, os.path.join(cwd, "val"), module=plan.get("module", "MC_Core.tla"),
-                                     const_keys=plan.get("const_keys"), end_event=plan.get("end_event"))
+        runs, tres = engine.validate(consts, results, os.path.join(cwd, "val"), module=cplan.get("module", "MC_Core.tla"),
+                                     const_keys=cplan.get("const_keys"), end_event=cplan.get("end_event"),
+                                     chunk=cplan.get("chunk", 400))
         if any(not r["accepted"] for r in tres):
             bad = [r for r in tres if not r["accepted"]][0]
             print("TOOL-ERROR: TLC did not accept a recorded trace (spec/harness mismatch): %s (see %s)" % (
@@ -192,7 +199,7 @@ def run_core(pid, tier, seed, plan):
         print("VIOLATION property=%s replay=%s" % (pid, path))
         print("   failed clauses (step, clause): %s" % v)
     ev = {
-        "property_id": pid, "tier": tier, "seed": seed, "level": "model_checking",
+        "property_id": pid, "tier": tier, "seed": seed, "level": plan.get("level", "model_checking"),
         "coverage": {
             "states": max(1, total["states"]), "transitions": max(1, total["transitions"]),
             "traces_validated_against_impl": total["validated"],
@@ -200,7 +207,7 @@ def run_core(pid, tier, seed, plan):
             "exhaustive": all(c["mode"] == "exhaustive" and not c["tlc"]["timeout"] for c in campaigns_ev),
             "evaluations": total["validated"],
             "distinct_nontrivial": total["tag_vectors_replayed"],
-            "rule": "behaviours are the action sequences TLC reaches (one per distinct model state after an "
+            "rule": plan.get("rule") or "behaviours are the action sequences TLC reaches (one per distinct model state after an "
                     "observable action); distinct_nontrivial counts distinct feature vectors (action kinds, edit "
                     "kinds per author class, insertion position class, human-after-AI edits, sessions) among the "
                     "replayed ones",
@@ -213,7 +220,7 @@ def run_core(pid, tier, seed, plan):
             "behaviours_dropped_git_diverged": total.get("divergent", 0),
             "known_findings_hit": {k: len(v) for k, v in known_hits.items()},
         },
-        "assumptions": [
+        "assumptions": plan.get("assumptions") or [
             "TLC 1.8 and the TLA+ CommunityModules evaluate spec/GitAiCore.tla correctly",
             "the harness projection (independent note parser, uid<->text table) reports the real repository state",
             "lines are pairwise distinct and non-blank, edits never reorder surviving lines (forced diffs)",
